@@ -710,7 +710,7 @@ fn main() {
     }
 
     // 2. random structured patterns with instantiated and random texts
-    let n = args.budget(2500, 40_000);
+    let n = args.budget(2500, 25_000);
     for _ in 0..n {
         let p = gen_pattern(&mut r);
         let k = 1 + r.usize(3);
@@ -728,7 +728,7 @@ fn main() {
         if r.chance(1, 4) {
             cx.parse_case(&p);
         }
-        if patterns.len() < args.budget(450, 5000) as usize {
+        if patterns.len() < args.budget(450, 3000) as usize {
             patterns.push(p);
         }
     }
@@ -853,7 +853,12 @@ fn main() {
     gp.extend(all_strings(b"[]!-ac:\\", if args.thorough { 4 } else { 3 }));
     // path mode, both case modes: two git processes for everything
     let (ap, at): (Vec<Vec<u8>>, Vec<Vec<u8>>) = if args.thorough {
-        (gp.clone(), texts.clone())
+        // every pattern; the exhaustive short texts and the hand-picked ones plus a sample of the rest
+        let mut at = texts.clone();
+        r.shuffle(&mut at);
+        at.sort_by_key(|t| t.len() > 3);
+        at.truncate(380);
+        (gp.clone(), at)
     } else {
         // quick: the corpus plus a deterministic sample
         let keep = corpus().len();
@@ -869,7 +874,7 @@ fn main() {
     };
     let facts = gitcli::attr_facts(&ap, &at, &mut cx.rep);
     if std::env::var_os("C36_TRACE").is_some() { eprintln!("attr done {:?} facts={}", t0.elapsed(), facts.len()); }
-    judge_facts(&mut cx, facts, args.budget(20_000, 400_000) as usize);
+    judge_facts(&mut cx, facts, args.budget(20_000, 250_000) as usize);
     // all four modes through pathspecs: one process per pattern and mode
     let keep = corpus().len();
     let mut rest: Vec<Vec<u8>> = gp.split_off(keep);
@@ -877,11 +882,11 @@ fn main() {
     rest.truncate(args.budget(12, 3000) as usize);
     let mut lp: Vec<Vec<u8>> = gp.into_iter().filter(|p| gitcli::pathspec_safe(p)).collect();
     r.shuffle(&mut lp);
-    lp.truncate(args.budget(12, 400) as usize);
+    lp.truncate(args.budget(12, 280) as usize);
     lp.extend(rest);
     let facts = gitcli::ls_facts(&lp, &texts, if args.thorough { &[0, 1, 2, 3] } else { &[0, 2] }, &mut cx.rep);
     if std::env::var_os("C36_TRACE").is_some() { eprintln!("ls done {:?} facts={}", t0.elapsed(), facts.len()); }
-    judge_facts(&mut cx, facts, args.budget(10_000, 300_000) as usize);
+    judge_facts(&mut cx, facts, args.budget(10_000, 180_000) as usize);
     if std::env::var_os("C36_TRACE").is_some() { eprintln!("all done {:?}", t0.elapsed()); }
     cx.rep.finish();
 }
